@@ -146,6 +146,10 @@ pub enum ReadPlan {
     Abandon,
     /// read this many chunks, then stop
     ReadK(u8),
+    /// `read_all()` before waiting on the gate
+    EagerAll,
+    /// wait on the gate first, then `read_all()`
+    LazyAll,
 }
 
 #[derive(Clone, Copy, Debug, PartialEq, Eq, Hash, serde::Serialize, serde::Deserialize)]
